@@ -8,7 +8,8 @@ RULE = ("cases run through the real Balancer.rebalance; oracle = multisets of ca
         "components (RDKit, maps cleared through the API) of each side: input side must be a "
         "sub-multiset of the output side and input_reaction must equal the de-mapped raw input; "
         "distinct non-trivial = distinct inputs where something was added or whose text contains a "
-        "marker substring ('.[H]', '.[O', '.OO')")
+        "marker substring ('.[H]', '.[O', '.OO'); every fourth case is followed by a second run in which the returned "
+        "rows (dicts carrying the tool's own columns) are edited and fed back")
 ASSUMPTIONS = [
     "RDKit canonical SMILES of a connected component identifies 'the same molecule'",
     "inputs with radicals / free atomic H or O / dummy atoms are out of the property's domain",
@@ -90,9 +91,23 @@ def work(shard, res, tier, seed):
         case = {"tag": "replay", "inputs": v["inputs"], "cfg": v.get("cfg")}
         judge(case, rowlib.run_case(case), res)
         return
-    for case in shard["cases"]:
+    for ci, case in enumerate(shard["cases"]):
         out = rowlib.run_case(case)
         judge(case, out, res)
+        # multi-step use: result rows (dicts that carry the tool's own columns) are edited and fed back
+        if ci % 4 == 0 and rowlib.aligned(case, out):
+            again = []
+            for row in out["rows"]:
+                r2 = dict(row)
+                a, b = row["input_reaction"].split(">>") if ">>" in str(row.get("input_reaction")) else ("", "")
+                if not a or not b:
+                    continue
+                r2["reaction"] = (a + ".O>>" + b) if len(again) % 2 == 0 else (a + ">>" + b + ".CC")
+                again.append(r2)
+            if again:
+                c2 = {"tag": case["tag"] + "/resubmitted", "inputs": again, "cfg": case.get("cfg")}
+                judge(c2, rowlib.run_case(c2), res)
+                res.count("resubmitted_rows", len(again))
         if len(res.samples) < 3 and out["rows"]:
             for row in out["rows"]:
                 if row.get("reaction") != row.get("input_reaction"):
@@ -101,4 +116,5 @@ def work(shard, res, tier, seed):
 
 
 def conclude_args(res, tier, seed):
-    return {"need": {"rows_with_additions": 20, "inputs_with_marker_text": 20}, "min_cases": 20}
+    return {"need": {"rows_with_additions": 20, "inputs_with_marker_text": 20, "resubmitted_rows": 20},
+            "min_cases": 20}
